@@ -38,7 +38,7 @@ def step (st0 : St) (toks : List String) : St × Option String :=
   let st := { st0 with b := { st0.b with events := [] } }
   match toks with
   | ["cfg", ft, frt, ftc, fet, period, s, stc, delay, dfn, t0] =>
-    let c : Cfg := ⟨nat! ft, nat! frt, nat! ftc, nat! fet, int! period, nat! s, nat! stc, int! delay, int! dfn⟩
+    let c : Cfg := ⟨nat! ft, nat! frt, nat! ftc, nat! fet, int! period, nat! s, nat! stc, int! delay, (if int! dfn == -2 then -1 else int! dfn)⟩   -- -2: a registered delay function that declines, which is the same as none
     ({ st0 with c := c, b := B.new c, now := int! t0 }, none)
   | ["adv", n] => fin { st with now := st.now + int! n } "-"
   | ["rs"] => fin { st with b := record st.c st.b st.now true } "-"
